@@ -297,6 +297,11 @@ impl<'a, R: ReadValue> LimitReader<'a, R> {
         }
     }
 
+    /// Return true if the end of this reader has been reached.
+    pub fn at_end(&self) -> bool {
+        self.end.is_some_and(|end| self.position() >= end)
+    }
+
     /// Check that `len` bytes can be read without going past the end of this
     /// reader.
     pub fn check_has_bytes(&self, len: u64) -> Result<(), ProtobufError> {
